@@ -675,11 +675,37 @@ impl<RW: QueueRW<T>, T> FutInnerRecv<RW, T> {
         rval
     }
 
-    #[inline(always)]
     pub fn recv(&self) -> Result<T, RecvError> {
-        let rval = self.reader.recv();
-        self.prod_wait.notify_all();
-        rval
+        self.reader.examine_signals();
+        loop {
+            match self.reader.queue.try_recv(&self.reader.reader) {
+                Ok(v) => {
+                    self.prod_wait.notify_all();
+                    return Ok(v);
+                }
+                Err((_, TryRecvError::Disconnected)) => {
+                    self.prod_wait.notify_all();
+                    return Err(RecvError);
+                }
+                Err((pt, TryRecvError::Empty)) => {
+                    // The failed try may have pinned a slot and released it again after a sender
+                    // found it pinned, reported Full and parked: wake the senders before waiting
+                    // for what they are going to send
+                    self.prod_wait.notify_all();
+                    let count = self.reader.reader.load_count(Relaxed);
+                    // see InnerRecv::recv
+                    if !self.reader.queue.is_slot_of(count, pt) {
+                        continue;
+                    }
+                    unsafe {
+                        self.reader
+                            .queue
+                            .waiter
+                            .wait(count, &*pt, &self.reader.queue.writers);
+                    }
+                }
+            }
+        }
     }
 
     /// Creates a new stream and returns a FutInnerRecv on that stream
